@@ -31,7 +31,7 @@ def run(ctx):
             pdata = [gen.stream(p, rnd) for p in parts]
             whole = b'\n'.join(pdata)
             cases.append(mkcase('W%d' % i, gc, whole))
-            cases.append({'id': 'F%d' % i, 'cfg': gc, 'files': True, 'inputs': [{'data': d, 'name': 'g%d_%d.json' % (i, t)} for t, d in enumerate(pdata)]})
+            cases.append({'id': 'F%d' % i, 'cfg': gc, 'files': True, 'inputs': [{'data': d, 'name': 'g%d_%s%d.json' % (i, 'zbya'[t % 4], t)} for t, d in enumerate(pdata)]})
             filed.append(i)
     impl, model, mism = common.correspond(cases)
     violations = []; checked = 0
@@ -83,6 +83,6 @@ def viol(cfg, data, rel, obs, exp):
 
 def replay(ctx, r):
     c = {'id': 'r', 'cfg': lib.new_cfg(), 'args': r['args'], 'inputs': [{'data': bytes.fromhex(r['stdin_hex'])}]}
-    if r.get('files'): c = {'id': 'r', 'cfg': lib.new_cfg(), 'args': r['args'], 'files': True, 'inputs': [{'data': bytes.fromhex(h), 'name': 'r%d.json' % t} for t, h in enumerate(r['file_hex'])]}
+    if r.get('files'): c = {'id': 'r', 'cfg': lib.new_cfg(), 'args': r['args'], 'files': True, 'inputs': [{'data': bytes.fromhex(h), 'name': 'r%s%d.json' % ('zbya'[t % 4], t)} for t, h in enumerate(r['file_hex'])]}
     res = lib.run_harness([c])['r']
     return {'observed': res['stdout'].decode('utf8', 'replace'), 'expected': r.get('expected'), 'fails': True}
